@@ -22,7 +22,9 @@ type Info struct {
 	BigConstSize       bool // constant-sized array type with size > 2^53
 	HasIntersection    bool
 	HasNilType         bool // a nil type inside a type value / capability
+	InlineFunctionType bool // a function type in a value position (array element type, field type, borrow type...)
 	Nodes              int
+	inlinePos          bool
 }
 
 // Inspect walks v.
@@ -61,6 +63,7 @@ func (in *Info) value(v cadence.Value) int {
 		}
 	case cadence.Array:
 		in.Kinds["Array"] = true
+		in.inlinePos = true
 		in.typ(x.ArrayType, map[cadence.Type]bool{})
 		for _, e := range x.Values {
 			sub(e)
@@ -68,6 +71,7 @@ func (in *Info) value(v cadence.Value) int {
 	case cadence.Dictionary:
 		in.Kinds["Dictionary"] = true
 		if x.DictionaryType != nil {
+			in.inlinePos = true
 			in.typ(x.DictionaryType, map[cadence.Type]bool{})
 		}
 		if len(x.Pairs) > in.MaxDictEntries {
@@ -79,6 +83,10 @@ func (in *Info) value(v cadence.Value) int {
 		}
 	case *cadence.InclusiveRange:
 		in.Kinds["InclusiveRange"] = true
+		if x.InclusiveRangeType != nil {
+			in.inlinePos = true
+			in.typ(x.InclusiveRangeType, map[cadence.Type]bool{})
+		}
 		sub(x.Start)
 		sub(x.End)
 		sub(x.Step)
@@ -89,6 +97,7 @@ func (in *Info) value(v cadence.Value) int {
 		}
 		t := CompositeTypeOf(x)
 		if t != nil {
+			in.inlinePos = true
 			in.typ(t, map[cadence.Type]bool{})
 			if len(FieldValues(x)) > len(TypeFields(t)) {
 				in.HasExtraFieldValue = true
@@ -102,16 +111,19 @@ func (in *Info) value(v cadence.Value) int {
 		if isNilType(x.StaticType) {
 			in.HasNilType = true
 		}
+		in.inlinePos = false
 		in.typ(x.StaticType, map[cadence.Type]bool{})
 	case cadence.Capability:
 		in.Kinds["Capability"] = true
 		if isNilType(x.BorrowType) {
 			in.HasNilType = true
 		}
+		in.inlinePos = true
 		in.typ(x.BorrowType, map[cadence.Type]bool{})
 	case cadence.Function:
 		in.Kinds["Function"] = true
 		if x.FunctionType != nil {
+			in.inlinePos = false
 			in.typ(x.FunctionType, map[cadence.Type]bool{})
 		}
 	case cadence.Path:
@@ -178,6 +190,9 @@ func (in *Info) typ(t cadence.Type, onPath map[cadence.Type]bool) {
 		}
 	case *cadence.FunctionType:
 		in.TypeKinds["Function"] = true
+		if in.inlinePos {
+			in.InlineFunctionType = true
+		}
 		for _, tp := range x.TypeParameters {
 			in.TypeKinds["type-parameter"] = true
 			if isNilType(tp.TypeBound) {
@@ -257,4 +272,91 @@ func Show(v cadence.Value) (s string) {
 		s = s[:600] + "…"
 	}
 	return s + " : " + t
+}
+
+// WalkTypes calls f once for every type reachable from t (element, key, field,
+// initializer parameter, bound, raw, base, member types ...), t included.
+func WalkTypes(t cadence.Type, f func(cadence.Type)) {
+	seen := map[cadence.Type]bool{}
+	var walk func(t cadence.Type)
+	params := func(ps []cadence.Parameter) {
+		for _, p := range ps {
+			walk(p.Type)
+		}
+	}
+	walk = func(t cadence.Type) {
+		if isNilType(t) {
+			return
+		}
+		switch t.(type) {
+		case cadence.CompositeType, cadence.InterfaceType:
+			if seen[t] {
+				return
+			}
+			seen[t] = true
+		}
+		f(t)
+		switch x := t.(type) {
+		case *cadence.OptionalType:
+			walk(x.Type)
+		case *cadence.VariableSizedArrayType:
+			walk(x.ElementType)
+		case *cadence.ConstantSizedArrayType:
+			walk(x.ElementType)
+		case *cadence.DictionaryType:
+			walk(x.KeyType)
+			walk(x.ElementType)
+		case *cadence.InclusiveRangeType:
+			walk(x.ElementType)
+		case *cadence.CapabilityType:
+			walk(x.BorrowType)
+		case *cadence.ReferenceType:
+			walk(x.Type)
+		case *cadence.IntersectionType:
+			for _, m := range x.Types {
+				walk(m)
+			}
+		case *cadence.FunctionType:
+			for _, tp := range x.TypeParameters {
+				walk(tp.TypeBound)
+			}
+			params(x.Parameters)
+			walk(x.ReturnType)
+		case cadence.CompositeType:
+			for _, fd := range TypeFields(x) {
+				walk(fd.Type)
+			}
+			for _, ps := range x.CompositeInitializers() {
+				params(ps)
+			}
+			switch y := t.(type) {
+			case *cadence.EnumType:
+				walk(y.RawType)
+			case *cadence.AttachmentType:
+				walk(y.BaseType)
+			}
+		case cadence.InterfaceType:
+			for _, fd := range InterfaceFields(x) {
+				walk(fd.Type)
+			}
+			for _, ps := range x.InterfaceInitializers() {
+				params(ps)
+			}
+		}
+	}
+	walk(t)
+}
+
+// ParameterLists returns the parameter lists a type itself declares (function
+// parameters, initializers).
+func ParameterLists(t cadence.Type) [][]cadence.Parameter {
+	switch x := t.(type) {
+	case *cadence.FunctionType:
+		return [][]cadence.Parameter{x.Parameters}
+	case cadence.CompositeType:
+		return x.CompositeInitializers()
+	case cadence.InterfaceType:
+		return x.InterfaceInitializers()
+	}
+	return nil
 }
